@@ -33,6 +33,16 @@ Theorem C14_gate : forall um om size bavail res, fst (pull_gate um om size bavai
   snd (pull_gate um om size bavail res) = res + size * factor.
 Proof. exact gate_sound. Qed.
 Print Assumptions C14_gate.
+(* ... on the quantities themselves: free space known => not below the minimum; a positive size limit => the node's total is strictly
+   below it (a node exactly at its limit accepts nothing) *)
+Theorem C14_gate_quantities : forall avail minv total maxv size bavail res, fst (pull_gate_n avail minv total maxv size bavail res) = true ->
+  (forall a, avail = Some a -> minv <= a) /\ (forall m, maxv = Some m -> 0 < m -> total < m) /\
+  (forall b, bavail = Some b -> size * factor <= b - res).
+Proof. exact gate_sound_n. Qed.
+Print Assumptions C14_gate_quantities.
+Theorem C14_at_limit_refused : forall avail minv total m size bavail res, 0 < m -> m <= total -> fst (pull_gate_n avail minv total (Some m) size bavail res) = false.
+Proof. exact gate_at_limit. Qed.
+Print Assumptions C14_at_limit_refused.
 Theorem C14_refusal_reserves_nothing : forall um om size bavail res,
   fst (pull_gate um om size bavail res) = false -> snd (pull_gate um om size bavail res) = res.
 Proof. exact gate_refusal_keeps. Qed.
